@@ -16,6 +16,9 @@ class SocketIO:
     def __init__(self, sock, execmodel: ExecModel) -> None:
         self.sock = sock
         self.execmodel = execmodel
+        # sendall() is a loop of partial sends: without a lock, frames written
+        # by several threads can interleave on the wire
+        self._writelock = execmodel.Lock()
         socket = execmodel.socket
         try:
             # IPTOS_LOWDELAY
@@ -35,7 +38,8 @@ class SocketIO:
         return buf
 
     def write(self, data: bytes) -> None:
-        self.sock.sendall(data)
+        with self._writelock:
+            self.sock.sendall(data)
 
     def close_read(self) -> None:
         try:
